@@ -23,6 +23,13 @@ impl SourceFileMap {
         self.file_line_ranges.push(SourceLineRanges::default());
     }
 
+    /// Adds a file line that has a BASIC line number but does not define that
+    /// BASIC line (it is empty or could not be tokenized), so program locations
+    /// in that BASIC line must keep mapping to the file line that does define it.
+    pub(crate) fn add_undefined(&mut self, ranges: SourceLineRanges) {
+        self.file_line_ranges.push(ranges);
+    }
+
     pub(crate) fn add(&mut self, basic_line: u64, ranges: SourceLineRanges) {
         let file_line_number = self.file_line_ranges.len();
         self.basic_lines_to_file_lines
